@@ -1,11 +1,12 @@
 (* C18 - Path utilities: '..' collapsing, lookup by address, child search.
    Only the property theorems, each closed by [exact]; models in
    Ports/PathModel.v, Ports/NameModel.v, proofs in Ports/PathProofs.v. *)
-From Coq Require Import List ZArith.
+From Coq Require Import List ZArith Bool.
 From Coq Require Import Permutation Sorting.Sorted.
 From RtoscV Require Import Match.PatSpec Match.MatchModel Osc.OscModel Osc.OscReadProofs Ports.MetaModel Ports.NameModel Ports.PathModel
                            Ports.PathProofs Ports.SearchProofs Ports.PathRegress Ports.WalkModel Ports.WalkProofs Ports.LookupProofs
-                           Ports.EnumProofs Ports.DispatchWalk Ports.LookupGen Ports.NamesModel Ports.NamesOk.
+                           Ports.EnumProofs Ports.DispatchWalk Ports.LookupGen Ports.NamesModel Ports.NamesOk
+                           Ports.LookupSpec Ports.LookupSpecProofs Ports.LookupAddr.
 Import ListNotations.
 Local Open Scope Z_scope.
 
@@ -42,7 +43,8 @@ Proof. exact (conj components_ex collapse_ex3). Qed.
 (* ---- child search ---------------------------------------------------------- *)
 (* [addressed root loc = AdOk ch]: ch are the ports the location addresses (the
    root table for "" and "/", the children of the port apropos finds, or that
-   port itself if it has none); metadata blocks in the macro layout (C17) or
+   port itself if it has none; C18_search_addressed below ties this to the
+   Spec's own reading of an address); metadata blocks in the macro layout (C17) or
    absent.  Option unmodified: exactly the children whose names start with the
    needle, each paired with its metadata bytes, in table order. *)
 Theorem C18_search_unmodified : forall root loc needle ch,
@@ -124,71 +126,135 @@ Theorem C18_search_nonvacuous :
     SOk (map hit_of [Port [97;47] None None; Port [97;47] None None; Port [98] None None]).
 Proof. exact ex_search. Qed.
 
+(* ---- which port a location addresses -------------------------------------------
+   The search theorems above speak about [addressed root loc], which the model
+   computes with its own apropos.  Independently of apropos:
+   [addresses root id a] (coq/Ports/LookupSpec.v) - the relative address a names
+   the port at index path id by structural descent: at every level the name of
+   the port on the path, read as a C05 pattern (PatSpec.spells: literal text
+   verbatim, at every '#N' a decimal index below N), spells the next part of
+   a, and a ends with the name of the port itself (a sub-tree port: with its
+   '/').  For trees with names_ok, apropos returns exactly that port - leaf or
+   sub-tree, at any depth - and the table path_search looks at is its children
+   (the port itself if it has none). *)
+Theorem C18_addressed_port : forall root id a,
+  names_ok root = true -> addr_ok a -> addresses root id a ->
+  apropos (map render_port root) (47 :: a) = AFound id.
+Proof. exact apropos_addresses. Qed.
+
+Theorem C18_search_addressed : forall root id a q,
+  names_ok root = true -> addr_ok a -> addresses root id a -> sport_at root id = Some q ->
+  addressed (map render_port root) (47 :: a) = AdOk (children_of q).
+Proof. exact addressed_is_spec. Qed.
+
+(* composed with C18_search_unmodified: a search at the address of a port returns
+   exactly the direct children of that port whose names start with the needle
+   (C18_search_sorted / _unique_prefix / C18_reply_wellformed compose the same way) *)
+Theorem C18_search_at_address : forall root id a q needle,
+  names_ok root = true -> addr_ok a -> addresses root id a -> sport_at root id = Some q ->
+  Forall (fun p => meta_wf (pmeta p)) (children_of q) ->
+  path_search (map render_port root) (47 :: a) needle Unmodified =
+    SOk (map hit_of (spec_children needle (children_of q))).
+Proof. exact search_at_address. Qed.
+
+(* a table that is neither the root nor a single child:
+   "s/" -> { "osc#3/" -> { "vol" (doc), "qan:i", "pb/" -> { "l" }, "pa" }, "x" }, "t";
+   "s/osc1/" (and "s/osc01/") names the port [0;0] with its four children *)
+Theorem C18_search_addressed_nonvacuous :
+  names_ok ex_nested = true /\
+  addresses ex_nested [0%nat; 0%nat] [115; 47; 111; 115; 99; 49; 47] /\
+  (exists q, sport_at ex_nested [0%nat; 0%nat] = Some q /\ length (children_of q) = 4%nat) /\
+  path_search (map render_port ex_nested) [47; 115; 47; 111; 115; 99; 49; 47] [] Unmodified =
+    SOk [{| e_name := Some [118; 111; 108]; e_data := Some [58; 100; 111; 99; 0; 61; 118; 0; 0]; e_len := 9 |};
+         {| e_name := Some [113; 97; 110; 58; 105]; e_data := None; e_len := 0 |};
+         {| e_name := Some [112; 98; 47]; e_data := None; e_len := 0 |};
+         {| e_name := Some [112; 97]; e_data := None; e_len := 0 |}] /\
+  path_search (map render_port ex_nested) [47; 115; 47; 111; 115; 99; 49; 47] [112] Sorted =
+    SOk [{| e_name := Some [112; 97]; e_data := None; e_len := 0 |};
+         {| e_name := Some [112; 98; 47]; e_data := None; e_len := 0 |}] /\
+  addresses ex_nested [0%nat; 0%nat] [115; 47; 111; 115; 99; 48; 49; 47].
+Proof. exact ex_nested_addressed. Qed.
+
 (* ---- lookup of walked addresses ----------------------------------------------
-   Full statement (kept visible; NOT proved in general):
-     forall root (well-formed: literal characters are not digits or pattern
-       characters, sub-tree names end in '/', 1 <= N),
-       no concrete name of a port is a prefix of a concrete name of a sibling ->
+   The clause of the property text:
+     forall root (names of the documented shape), no concrete name of a port is a
+       prefix of a concrete name of a sibling ->
        forall id a, In (id, a) (walk root) -> apropos root a = AFound id.
-   It is checked on every run by the tie (model = implementation on every
-   generated tree x walked address) and by the Python Spec oracle; below: a
-   computed instance with '#N' at two levels (138 addresses), and the witness
-   that the side condition must exclude literal digits next to an enumeration. *)
+   It is FALSE of the faithful model and of the code (C18_lookup_refuted, replayed
+   on the real apropos: corpus/C18/defects.txt; finding class
+   lookup-leading-zero-alias): an enumeration accepts indices with leading zeros
+   (C05), so "/a01b" - which the walk reports for the port "a01b" - is also an
+   address of its sibling "a#4b", and apropos returns the first port that
+   matches.  What is proved is the clause with the side condition
+   no_digit_facing (C18_lookup_partial): reading two sibling names in step, a
+   '#N' never meets a literal digit.  All four hypotheses are decidable
+   (coq/Ports/LookupSpec.v) and evaluated on every generated tree by the tie. *)
 Theorem C18_lookup_example : lookup_all (map render_port ex_numeric_s) = true.
 Proof. exact lookup_example. Qed.
 
-Theorem C18_lookup_digit_alias_refuted :
-  walk None alias_tree [] =
-    WOk [([0%nat], [47;97;48;98]); ([0%nat], [47;97;49;98]); ([0%nat], [47;97;50;98]);
-         ([0%nat], [47;97;51;98]); ([1%nat], [47;97;48;49;98])] [47] /\
-  apropos alias_tree [47;97;48;49;98] = AFound [0%nat].
-Proof. exact lookup_digit_alias. Qed.
+(* the text's proviso holds for { "a#4b", "a01b" } (shape, every enumeration
+   non-empty, no concrete name a prefix of a sibling's); the walk reports
+   (port 1, "/a01b"); apropos returns port 0 *)
+Theorem C18_lookup_refuted :
+  names_shape alias_stree = true /\ enums_pos alias_stree = true /\ sibling_prefix_free alias_stree = true /\
+  no_digit_facing alias_stree = false /\
+  exists out b, walk None (map render_port alias_stree) [] = WOk out b /\
+    In ([1%nat], [47; 97; 48; 49; 98]) out /\
+    apropos (map render_port alias_stree) [47; 97; 48; 49; 98] = AFound [0%nat].
+Proof. exact lookup_text_refuted. Qed.
 
-(* ---- lookup, in general -----------------------------------------------------------
-   Every (port, address) the walk reports is found by apropos - any depth, '#N'
-   at any level, leaf names with several '#'.  Side conditions: names of the
-   documented shape ([lok]: sub-tree ports one or more components "text/" / "text#N/",
-   7-bit literal text without : { * #, no two '#N' adjacent, a leaf name starts
-   with a literal character other than '/' and does not end in '/'), and
-   [lookup_disjoint]: no path is answered by two ports of one table, where a
-   port answers a path if its name matches it as a pattern or the path is a
-   prefix of the raw name (the two tests apropos makes).  This is the
-   semantic form of "no sibling's name is a prefix of another's"; deriving it
-   from prefix-freeness of the concrete names (for digit-free literal text) is
-   not done - C18_lookup_digit_alias_refuted shows why digits must be
-   excluded there. *)
-Theorem C18_lookup_partial : forall root id a ty,
-  Forall sport_wf root -> Forall lok root -> lookup_disjoint root ->
+(* Every (port, address) the walk reports is found by apropos - any depth, '#N'
+   at any level, leaf names with several '#', literal digits - for trees that
+   satisfy what the text asks:
+     names_shape          names of the documented shape (leaf: literal text and
+                          '#N', not starting or ending with '/', optional ':...';
+                          sub-tree: one or more components "text/" / "text#N/";
+                          7-bit literal text without : { * #, the text behind a
+                          '#N' does not begin with a digit),
+     enums_pos            every enumeration has at least one index (1 <= N),
+     sibling_prefix_free  no concrete name of a port (every '#N' expanded) is a
+                          prefix of a concrete name of a sibling  [the proviso
+                          of the property text],
+   and the SIDE CONDITION
+     no_digit_facing      reading two sibling names in step (literal characters
+                          agree, '#N' against '#M' goes on behind both), a '#N'
+                          never meets a literal digit
+   - the complement of the finding class lookup-leading-zero-alias.  No hypothesis
+   about type strings (apropos does not look at them). *)
+Theorem C18_lookup_partial : forall root id a,
+  names_shape root = true -> enums_pos root = true -> sibling_prefix_free root = true ->
+  no_digit_facing root = true ->
   forall out b, walk None (map render_port root) [] = WOk out b ->
-  In (id, a) out -> leaf_admits root id ty ->
+  In (id, a) out ->
   apropos (map render_port root) a = AFound id.
-Proof. exact walk_lookup. Qed.
+Proof. exact walk_lookup_text. Qed.
 
-Theorem C18_lookup_nonvacuous : Forall lok ex_d /\ lookup_disjoint ex_d /\
-  apropos (map render_port ex_d) [47; 97; 49; 49; 47; 99; 49; 47; 120] = AFound [0%nat; 0%nat].
-Proof. exact ex_d_lok. Qed.
+(* non-vacuity, with literal digits: { "osc1a", "osc2a", "v2#3/x7:i", "p10/q/" -> { "b2", "c" } }
+   satisfies the four hypotheses and its walked addresses are found; { "a1", "a12" } is rejected
+   (a prefix) *)
+Theorem C18_lookup_partial_nonvacuous :
+  names_shape ex_digits = true /\ enums_pos ex_digits = true /\ sibling_prefix_free ex_digits = true /\
+  no_digit_facing ex_digits = true.
+Proof. exact lookup_text_nonvacuous. Qed.
 
-(* The lookup clause with a DECIDABLE hypothesis and nothing else: names_ok root
-   = true (coq/Ports/NamesModel.v; evaluated on every generated tree by the
-   tie) - names of the documented shape (sub-tree names of one or more
-   components; literal text may hold digits) and no two ports of a table
-   CLASH (NamesModel.clashb): reading both path parts in step - literal
-   characters must agree, '#N' against '#M' goes on behind both - one name ends
-   (x / xy: "a sibling's name is a prefix of another's") or a '#N' meets a
-   literal digit.  lok / lookup_disjoint follow (C09_names_ok_sound).  The
-   digit-alias witness above is such a clash ('#4' against the literal 0 of
-   a01b).  No hypothesis about type strings: apropos
-   does not look at them (every reported leaf admits some type string,
-   names_ok_leaf_admits). *)
-Theorem C18_lookup : forall root id a,
+(* the same statement over NamesModel.names_ok (the hypothesis C09 uses; it also
+   admits '#0'), and what names_ok is: the shape, the text's proviso read on the
+   keys ('#N' as one token), and the side condition *)
+Theorem C18_lookup_names_ok_partial : forall root id a,
   names_ok root = true ->
   forall out b, walk None (map render_port root) [] = WOk out b ->
   In (id, a) out ->
   apropos (map render_port root) a = AFound id.
 Proof. exact walk_lookup_names. Qed.
 
-(* names_ok with digits in literal text: { "osc1a", "osc2a", "v2#3/x7:i", "p10/q/" -> { "b2", "c" } }
-   is accepted and its walked addresses are found; { "a1", "a12" } is rejected (a prefix) *)
+Theorem C18_names_ok_is : forall root,
+  names_ok root = names_shape root && key_prefix_free root && no_digit_facing root.
+Proof. exact names_ok_split. Qed.
+
+Theorem C18_text_proviso_gives_keys : forall root,
+  enums_pos root = true -> sibling_prefix_free root = true -> key_prefix_free root = true.
+Proof. exact text_proviso_keys. Qed.
+
 Theorem C18_lookup_digits_nonvacuous :
   names_ok ex_digits = true /\
   names_ok [SPort [Lit [97; 49]] [] None None; SPort [Lit [97; 49; 50]] [] None None] = false /\
@@ -198,6 +264,21 @@ Theorem C18_lookup_digits_nonvacuous :
   apropos (map render_port ex_digits) [47; 118; 50; 50; 47; 120; 55] = AFound [2%nat] /\
   apropos (map render_port ex_digits) [47; 112; 49; 48; 47; 113; 47; 98; 50] = AFound [3%nat; 0%nat].
 Proof. exact ex_digits_ok. Qed.
+
+(* the semantic form: names of the documented shape ([lok]) and [lookup_disjoint]:
+   a path one port of a table matches is not answered by another, where a port
+   answers a path if its name matches it as a pattern or the path is a prefix
+   of the raw name (the two tests apropos makes) *)
+Theorem C18_lookup_semantic_partial : forall root id a ty,
+  Forall sport_wf root -> Forall lok root -> lookup_disjoint root ->
+  forall out b, walk None (map render_port root) [] = WOk out b ->
+  In (id, a) out -> leaf_admits root id ty ->
+  apropos (map render_port root) a = AFound id.
+Proof. exact walk_lookup. Qed.
+
+Theorem C18_lookup_nonvacuous : Forall lok ex_d /\ lookup_disjoint ex_d /\
+  apropos (map render_port ex_d) [47; 97; 49; 49; 47; 99; 49; 47; 120] = AFound [0%nat; 0%nat].
+Proof. exact ex_d_lok. Qed.
 
 (* observation, outside the quantifier (names are non-empty): an empty port name
    makes the unique-prefix pass read one byte before the name *)
